@@ -8,6 +8,8 @@ claimed = {
  "C11": ("§6 C11", "seeded schedule search over the real gauge code; Wing-Gong linearizability check of every recorded history (plus quiescent value) against a sequential integer", "deterministic simulation: seeded schedules + fault injection; linearizability checker"),
  "C02": ("§6 C02, §3.5", "seeded schedule search over the real two-shard histogram (direct, through HistogramVec, through Registry::gather); every snapshot decoded to a set and checked as a consistent cut, window, per-thread prefix; vector-clock happens-before obligation on every histogram cell for the memory-model clause", "deterministic simulation: seeded schedules, stalls inside observe/collect, spurious CAS failures; set-decoding oracle + vector-clock race check"),
  "C03": ("§6 C03", "seeded search over histories with >=3 collections, local batches and getters; growing sets, batch atomicity, completeness at quiescence (read under the scheduler), progress: never stuck, and a waiting collector only waits for observations it reports or that started before it", "deterministic simulation: seeded schedules + stalls + spurious CAS; conservation and bounded-liveness (stuck detection with spin blocking) oracles"),
+ "C10": ("§6 C10", "seeded schedule search over the real metric vector; child identity observed from the atomic cell each update / collected sample touched; map-operation history checked for linearizability (Wing-Gong) against a map model, values against the per-child update rule; single-threaded histories compared sequentially", "deterministic simulation: seeded schedules + stalls between read-unlock and write-lock; linearizability checker with observed child identity"),
+ "C05": ("§6 C05", "generated vectors of every kind (incl. local vectors) and adversarially split label-value tuples, values and map form under seed-controlled hash seeds, invalid requests; bit-weighted updates make aliasing between any two requests visible; run on 1-2 simulated threads", "deterministic simulation used as workload + reference-model harness (group C: sequential oracle; schedule and hash seed varied but not essential)"),
 }
 checks = []
 for pid in sorted(claimed):
